@@ -163,4 +163,30 @@ Definition int_val (n : num) : option Z :=
 (* a NativeInt always holds an isize *)
 Definition num_wf (n : num) : Prop :=
   match n with NativeInt z => in_isize z = true | _ => True end.
+
+(* Two REPRESENTATIONS of the same number.  The converse of [num_wf] does not hold: a BigInt may
+   hold an isize -- the fbig closures of + - * wrap their result in BigInt whatever its size
+   (100000000000000000030 - 100000000000000000000 is BigInt 30), and so do neg / abs on a BigInt.
+   [num_sim] relates the representations of one number; NumProofs.v shows that no operator can
+   tell them apart (comparisons coerce a NativeInt operand to BigInt, never the other way). *)
+Definition num_sim (a b : num) : Prop :=
+  match a, b with
+  | (NativeInt x | BigInt x), (NativeInt y | BigInt y) => x = y
+  | Decimal x, Decimal y => x = y
+  | Float x, Float y => x = y
+  | Double x, Double y => x = y
+  | _, _ => False
+  end.
+Definition osim (a b : option num) : Prop :=
+  match a, b with
+  | Some x, Some y => num_sim x y
+  | None, None => True
+  | _, _ => False
+  end.
+(* the representation that parsing (try_parse_integer, From<iN>) chooses for the same number *)
+Definition normalize (n : num) : num :=
+  match n with
+  | BigInt z => if in_isize z then NativeInt z else BigInt z
+  | _ => n
+  end.
 End Num.
